@@ -37,10 +37,12 @@ Proof. vm_compute. reflexivity. Qed.
 Print Assumptions C14_string_roundtrip_all.
 
 
-(* ---- normal paths (the paths Locate and Walk hand out): root, then children with ANY key bytes and
-   indexes with ANY integer. The printed text (dot form for token keys by the regenerated
-   jp_tokenMap, bracketed literal otherwise, [n] for indexes) parses back to the same fragments;
-   a key printed in brackets comes back with invalid UTF-8 replaced. *)
+(* ---- paths of a root followed by children with ANY key bytes, indexes with ANY integer, wildcards
+   of both kinds and descents (this includes the normal paths Locate and Walk hand out). The
+   printed text - dot form for token keys by the regenerated jp_tokenMap, bracketed literal
+   otherwise, [n], .* and [*], a descent's second dot left to a following token child or star -
+   parses back to the same fragments; a key printed in brackets comes back with invalid UTF-8
+   replaced. *)
 Theorem C14_normal_path_round_trip : forall fs, parse_path (print_path fs) = Some (map norm_frag fs).
 Proof. exact path_text_round_trip. Qed.
 
@@ -49,7 +51,8 @@ Theorem C14_normal_path_round_trip_clean : forall fs,
 Proof. exact path_text_round_trip_clean. Qed.
 
 Example C14_normal_path_example :
-  let fs := [NChild [x61; x62]; NNth (-9223372036854775808)%Z; NChild [x61; x20; x27]; NNth 0%Z; NChild []; NChild [xc3; xa9]] in
+  let fs := [NChild [x61; x62]; NNth (-9223372036854775808)%Z; NDescent; NChild [x61; x20; x27]; NNth 0%Z; NDescent; NChild [x7a]; NWild true;
+             NDescent; NWild true; NWild false; NChild []; NDescent; NDescent; NChild [xc3; xa9]; NDescent] in
   parse_path (print_path fs) = Some fs.
 Proof. vm_compute. reflexivity. Qed.
 
